@@ -56,4 +56,12 @@ def replay(ctx, payload):
 
 
 def reproduce(ctx, key, w):
+    if key == 'F10-separators-stripped':
+        import kernpy as kp
+        d, _ = kp.loads(w['input']['text'])
+        return kp.dumps(d) == w['impl']
+    if key == 'F16-hidden-barline':
+        import kernpy as kp
+        d, _ = kp.loads(w['input']['text'])
+        return kp.dumps(d) == w['impl']
     return False
